@@ -98,7 +98,7 @@ func (e *fnEnc) astrLit(v string) Term {
 // abytes: abstract content of a byte slice.
 func (e *fnEnc) abytes(st *state, sl Term) Term {
 	f := e.declareFun("abytes", []Sort{ArrayOf(SInt, SInt), SInt, SInt}, SAStr)
-	comp, cs := e.elemComp(SInt)
+	comp, cs := e.elemCompT(types.Typ[types.Uint8])
 	arr := sel(e.heapGet(st, comp, cs), slBase(sl), ArrayOf(SInt, SInt))
 	return app(SAStr, f, arr, slOff(sl), slLen(sl))
 }
@@ -319,8 +319,10 @@ func (e *fnEnc) applyContract(c *blockCtx, in ssa.Instruction, name string, ctr 
 		g := e.evalBool(cl.E, env)
 		e.obligation("pre", fmt.Sprintf("%s:%s", label, clauseLabel(cl, i)), c.reach, g, cl.Text, e.posOf(in), false)
 	}
-	// frame
-	e.applyAssigns(c, ctr, env)
+	// frame: locations are evaluated in the state before the call
+	preEnv := *env
+	preEnv.st = pre
+	e.applyAssigns(c, ctr, &preEnv)
 	// results
 	rn := resultNames(sig)
 	res := e.resultTerms(c, in, sig, "call."+shortCallee(name))
@@ -376,6 +378,13 @@ func (e *fnEnc) applyAssigns(c *blockCtx, ctr *FuncContract, env *specEnv) {
 			}
 			v := e.evalSpec(ex, env)
 			e.havocObject(c.st, v)
+		case strings.HasPrefix(txt, "allelems("):
+			t, ok := e.eng.lookupType(env.pkg, txt[len("allelems("):len(txt)-1])
+			if !ok {
+				e.fail("assigns %s: unknown type", txt)
+			}
+			comp, cs := e.elemCompT(t)
+			e.heapSet(c.st, comp, e.freshConst("havoc."+comp, cs))
 		case strings.HasPrefix(txt, "elems(") || strings.HasPrefix(txt, "all "):
 			// elems(s): contents of the slice; "all T.f": field f of every T
 			if strings.HasPrefix(txt, "all ") {
@@ -388,7 +397,7 @@ func (e *fnEnc) applyAssigns(c *blockCtx, ctr *FuncContract, env *specEnv) {
 				v := e.evalSpec(ex, env)
 				et := types.Unalias(v.typ).Underlying().(*types.Slice).Elem()
 				es := e.sortOf(et)
-				comp, cs := e.elemComp(es)
+				comp, cs := e.elemCompT(et)
 				arr := e.heapGet(c.st, comp, cs)
 				e.heapSet(c.st, comp, store(arr, slBase(v.t), e.freshConst("havoc.elems", ArrayOf(SInt, es))))
 			}
@@ -554,7 +563,7 @@ func (e *fnEnc) appendModel(c *blockCtx, in ssa.Instruction, cc *ssa.CallCommon)
 	s := e.val(cc.Args[0])
 	st := types.Unalias(cc.Args[0].Type()).Underlying().(*types.Slice)
 	es := e.sortOf(st.Elem())
-	comp, cs := e.elemComp(es)
+	comp, cs := e.elemCompT(st.Elem())
 	inner := ArrayOf(SInt, es)
 	var tlen Term
 	var telem func(j Term) Term
@@ -618,7 +627,7 @@ func (e *fnEnc) copyModel(c *blockCtx, in ssa.Instruction, cc *ssa.CallCommon) T
 	src := e.val(cc.Args[1])
 	st := types.Unalias(cc.Args[0].Type()).Underlying().(*types.Slice)
 	es := e.sortOf(st.Elem())
-	comp, cs := e.elemComp(es)
+	comp, cs := e.elemCompT(st.Elem())
 	inner := ArrayOf(SInt, es)
 	heap := e.heapGet(c.st, comp, cs)
 	var slen Term
@@ -773,14 +782,20 @@ func (e *fnEnc) assignsTargets() (map[string][]Term, bool) {
 			si := e.structOf(typ)
 			comp, _ := e.fieldComp(si, si.fieldIndex(t[k+1:]))
 			out[comp] = append(out[comp], T(SInt, "*"))
+		case strings.HasPrefix(txt, "allelems("):
+			t, ok := e.eng.lookupType(env.pkg, txt[len("allelems("):len(txt)-1])
+			if !ok {
+				e.fail("assigns %s: unknown type", txt)
+			}
+			comp, _ := e.elemCompT(t)
+			out[comp] = append(out[comp], T(SInt, "*"))
 		case strings.HasPrefix(txt, "elems("):
 			ex, err := parseExpr(txt[len("elems(") : len(txt)-1])
 			if err != nil {
 				e.fail("assigns %s: %v", txt, err)
 			}
 			v := e.evalSpec(ex, env)
-			es := e.sortOf(types.Unalias(v.typ).Underlying().(*types.Slice).Elem())
-			comp, _ := e.elemComp(es)
+			comp, _ := e.elemCompT(types.Unalias(v.typ).Underlying().(*types.Slice).Elem())
 			out[comp] = append(out[comp], slBase(v.t))
 		case strings.HasPrefix(txt, "mapof("):
 			ex, err := parseExpr(txt[len("mapof(") : len(txt)-1])
@@ -818,40 +833,35 @@ func (e *fnEnc) assignsTargets() (map[string][]Term, bool) {
 	return out, false
 }
 
-// frameObligations: memory that existed at entry and is not named in `assigns`
-// is unchanged at exit (root objects only; inline struct fields of pre-existing
-// objects are covered through the field components they are flattened into).
-func (e *fnEnc) frameObligations(exit *state, reach Term) {
+// frameGoals: for every component changed in st relative to entry, the
+// statement "every pre-existing root location not named in assigns is unchanged".
+// ok=false means the whole heap may have changed (uncontracted call).
+func (e *fnEnc) frameGoals(st *state, rname string) (goals map[string]Term, ok bool) {
 	targets, all := e.assignsTargets()
+	goals = map[string]Term{}
 	if all {
-		return
+		return goals, true
 	}
-	if ep, ok := exit.m["!epoch"]; ok && ep.S != "" {
-		e.obligationNoAssume("frame", "heap", reach, tFalse, "an uncontracted call or a loop may modify the whole heap, but `assigns heap` is not declared", "")
-		return
+	if ep, has := st.m["!epoch"]; has && ep.S != "" {
+		return goals, false
 	}
 	var comps []string
-	for k := range exit.m {
+	for k := range st.m {
 		if k != "!epoch" && !strings.HasPrefix(k, "Iter.") {
 			comps = append(comps, k)
 		}
 	}
 	sort.Strings(comps)
-	r := e.declare("frame.r", SInt)
+	r := Term{rname, SInt}
 	for _, comp := range comps {
-		final := exit.m[comp]
+		final := st.m[comp]
 		entry := e.heapGet(e.entrySt, comp, final.Sort)
 		if final.S == entry.S {
 			continue
 		}
-		allowed := targets[comp]
-		skip := false
 		conds := []Term{lt(intLit(0), r), le(r, e.entrySt.alloc)}
-		if strings.HasPrefix(comp, "H.") {
-			// interior (inline struct) addresses of pre-existing objects are negative
-			conds = []Term{not(eq(r, intLit(0))), le(r, e.entrySt.alloc)}
-		}
-		for _, a := range allowed {
+		skip := false
+		for _, a := range targets[comp] {
 			if a.S == "*" {
 				skip = true
 			}
@@ -861,14 +871,58 @@ func (e *fnEnc) frameObligations(exit *state, reach Term) {
 			continue
 		}
 		parts := splitSortArgs(string(final.Sort)[len("(Array ") : len(final.Sort)-1])
-		goal := imp(and(conds...), eq(sel(final, r, Sort(parts[1])), sel(entry, r, Sort(parts[1]))))
-		if strings.HasPrefix(comp, "H.") {
-			// negative references: only those that are interior addresses of old objects matter;
-			// locals' interior addresses are excluded by requiring the reference to be an assigns-irrelevant old one
-			goal = imp(e.oldRef(r), goal)
-		}
-		e.obligationNoAssume("frame", comp, reach, goal, "only locations named in assigns are modified", "")
+		goals[comp] = imp(and(conds...), eq(sel(final, r, Sort(parts[1])), sel(entry, r, Sort(parts[1]))))
 	}
+	return goals, true
+}
+
+// frameObligations: memory that existed at entry and is not named in `assigns`
+// is unchanged at exit (root objects; inline struct fields are flattened into
+// per-field components of their own address space and are not checked).
+func (e *fnEnc) frameObligations(exit *state, reach Term) {
+	r := e.declare("frame.r", SInt)
+	goals, ok := e.frameGoals(exit, r.S)
+	if !ok {
+		e.obligationNoAssume("frame", "heap", reach, tFalse, "an uncontracted call may modify the whole heap, but `assigns heap` is not declared", "")
+		return
+	}
+	var comps []string
+	for c := range goals {
+		comps = append(comps, c)
+	}
+	sort.Strings(comps)
+	for _, comp := range comps {
+		e.obligationNoAssume("frame", comp, reach, goals[comp], "only locations named in assigns are modified", "")
+	}
+}
+
+// frameAssumption: the frame condition about state st, instantiated at the
+// frame skolem and at every pointer parameter (ground instances instead of a
+// quantified fact: cheap for the solvers, enough for the frame obligations and
+// for facts about the parameters), used as an implicit loop invariant.
+func (e *fnEnc) frameAssumption(st *state) Term {
+	insts := []string{e.declare("frame.r", SInt).S}
+	for _, p := range e.fn.Params {
+		if _, ok := types.Unalias(p.Type()).Underlying().(*types.Pointer); ok {
+			insts = append(insts, e.vals[p].S)
+		}
+	}
+	var cs []Term
+	for _, in := range insts {
+		goals, ok := e.frameGoals(st, in)
+		if !ok {
+			return tTrue
+		}
+		var comps []string
+		for c := range goals {
+			comps = append(comps, c)
+		}
+		sort.Strings(comps)
+		for _, c := range comps {
+			cs = append(cs, goals[c])
+		}
+	}
+	return and(cs...)
 }
 
 // oldRef: r is a root object that existed at entry (interior addresses are not checked).
